@@ -15,9 +15,10 @@
 EXTENDS OrderLaws, TraceLib
 VARIABLE l
 
-Mat(e) == [x \in 1..e.n |-> [y \in 1..e.n |->
+\* (TLCEval tabulates the matrix once; TLC functions are otherwise re-evaluated on every application)
+Mat(e) == TLCEval([x \in 1..e.n |-> TLCEval([y \in 1..e.n |->
               [eq |-> e.eq[x][y], ne |-> e.ne[x][y], lt |-> e.lt[x][y], le |-> e.le[x][y], gt |-> e.gt[x][y],
-               ge |-> e.ge[x][y], heq |-> e.heq[x][y], bad |-> e.bad[x][y]]]]
+               ge |-> e.ge[x][y], heq |-> e.heq[x][y], bad |-> e.bad[x][y]]])])
 
 \* every broken clause of every ordered pair
 PairVerdicts(M, n) ==
